@@ -58,7 +58,9 @@ def clientReq (r : Req) : Option String := do
   pure (showRes (clientVerify retr cacheF true fuel start))
 
 /-- `c03.session cache=[(h,p)…] calls=[(fuel,<start cert>,[(hashId,<cert>)…])…]` → results `;`-joined ` | ` the cache
-afterwards restricted to `keys=[…]` -/
+afterwards restricted to `keys=[…]`. `expired=1`: a `MemoryCertificateVerifierCache` whose delay is not positive — an
+entry is expired as soon as it is stored (`get_previous_hash` filters on `expire_at >= now`), so every call reads an
+empty cache and nothing is ever read back. -/
 def sessionReq (r : Req) : Option String := do
   let cache ← (← r.list "cache").mapM fun e =>
     match e with
@@ -71,6 +73,10 @@ def sessionReq (r : Req) : Option String := do
       let sv ← parseServed served
       pure ((fun h => (sv.find? (·.1 == h)).map (·.2)), ← fuel.nat?, ← parseCert start)
     | _ => none
+  if (r.nat "expired").getD 0 == 1 then
+    let rs := calls.map fun (retr, fuel, c) => clientVerify retr (fun _ => none) true fuel c
+    pure (String.intercalate ";" (rs.map showRes) ++ " | ")
+  else
   let cacheF := fun h => (cache.find? (·.1 == h)).map (·.2)
   let (rs, c') := session true cacheF calls
   let dump := keys.filterMap fun k => (c' k).map fun p => s!"({k},{p})"
